@@ -1,4 +1,201 @@
-/-! Line-protocol operations for the Grid glue model (filled in by the Grid model; `none` = unknown op). -/
+import SphericalVerif.Model.Grid
+/-! Line-protocol operations for the Grid glue model (`none` = unknown / unparsable op).
+
+    Tokens (after the leading `grid`):
+      `ufunc <name> <call|at|other> kw=<0|1> out=<none|OUT> [form=…] ARG…`
+      `method <name> ARG [ARG]`              name ∈ conjugate conjugate_inplace bar real imag absolute add subtract multiply divide
+      `new shape=<SH> in=<none|SPIN;EXTRA> pos=<-|v,v,…> kwspin=<absent|none|int> kwextra=<EXTRA>`
+      `copy <objCopy|copyCopy|copyDeepcopy|npArraySubok|pickle:P> <spin|none> <EXTRA>`
+    ARG   = `g:<spin>:<nt>:<np>:<SH lead>:<metaId>:<EXTRA>` | `s:<nz|z>:<SH>:<int|none>`
+    OUT   = `g:…` as above | `p:<SH>`
+    SH    = `-` (empty) | `2x3x…`;  EXTRA = `-` | `key,key,…`;  `form=…` tokens are ignored. -/
 namespace GridOps
-def step (_toks : List String) : Option String := none
+open Model.Grid
+
+def parseList (s : String) (sep : Char) : List String :=
+  if s == "-" || s == "" then [] else s.splitOn (String.singleton sep)
+
+def parseShape (s : String) : Option (List Nat) := (parseList s 'x').mapM String.toNat?
+def parseExtra (s : String) : List String := parseList s ','
+def parseOptInt (s : String) : Option (Option Int) :=
+  if s == "none" then some none else s.toInt?.map some
+
+def parseArg (s : String) : Option Arg :=
+  match s.splitOn ":" with
+  | ["g", sp, nt, np, lead, mid, ex] => do
+    let sp ← sp.toInt?; let nt ← nt.toNat?; let np ← np.toNat?; let lead ← parseShape lead; let mid ← mid.toNat?
+    pure (.grid { spin := sp, nTheta := nt, nPhi := np, lead := lead, metaId := mid, extra := parseExtra ex })
+  | ["s", nz, sh, iv] => do
+    let sh ← parseShape sh
+    let iv ← parseOptInt iv
+    pure (.scalar (nz == "nz") sh iv)
+  | _ => none
+
+def parseOut (s : String) : Option (Option OutArg) :=
+  if s == "none" then some none else
+  match s.splitOn ":" with
+  | ["p", sh] => (parseShape sh).map (fun sh => some (.plain sh))
+  | _ => match parseArg s with
+    | some (.grid g) => some (some (.grid g))
+    | _ => none
+
+def parseUF : String → UF
+  | "greater" => .greater | "greater_equal" => .greater_equal | "less" => .less | "less_equal" => .less_equal
+  | "not_equal" => .not_equal | "equal" => .equal | "logical_and" => .logical_and | "logical_or" => .logical_or
+  | "isfinite" => .isfinite | "isinf" => .isinf | "isnan" => .isnan
+  | "positive" => .positive | "negative" => .negative | "add" => .add | "subtract" => .subtract
+  | "multiply" => .multiply | "divide" => .divide | "true_divide" => .true_divide
+  | "conj" => .conj | "conjugate" => .conjugate | "absolute" => .absolute | "power" => .power
+  | "sqrt" => .sqrt | "square" => .square | "reciprocal" => .reciprocal
+  | _ => .other
+
+def parseMeth : String → Option Meth
+  | "call" => some .call | "at" => some .at | "other" => some .otherMeth | _ => none
+
+def parseMethod : String → Option Method
+  | "conjugate" => some (.conjugate false) | "conjugate_inplace" => some (.conjugate true)
+  | "bar" => some .bar | "real" => some .real | "imag" => some .imag | "absolute" => some .absolute
+  | "add" => some .add | "subtract" => some .subtract | "multiply" => some .multiply | "divide" => some .divide
+  | _ => none
+
+def showList (xs : List String) (sep : String) : String := if xs.isEmpty then "-" else sep.intercalate xs
+def showShape (sh : List Nat) : String := showList (sh.map toString) "x"
+def showMId : MId → String
+  | .fresh _ => "fresh"
+  | .pre i => s!"pre:{i}"
+
+def showErr : Err → String
+  | .tooManyPositional => "toomanypos" | .ndimLt2 => "ndim" | .noSpin => "nospin" | .tooSmall => "toosmall"
+  | .kwargs => "kwargs" | .spinMismatch => "spin" | .spinMismatchSubtract => "spin-subtract"
+  | .shapeMismatch => "shape" | .scalarDims => "scalardims" | .numpyBroadcast => "npbroadcast"
+  | .indexError => "index" | .realImagSpin => "realimag" | .scalarNonzero => "scalarnonzero"
+  | .cannotBroadcast => "cannotbroadcast"
+
+def showExc : PyExc → String
+  | .ValueError => "ValueError" | .NameError => "NameError"
+  | .NotImplementedError => "NotImplementedError" | .IndexError => "IndexError"
+
+def showRes : Res → String
+  | .grid r => s!"grid spin={r.spin} nt={r.nTheta} np={r.nPhi} lead={showShape r.lead} extra={showList r.extra ","} meta={showMId r.metaId} obj={if r.obj == .new then "new" else "self"}"
+  | .plain => "plain"
+  | .none => "none"
+  | .notImplemented => "notimpl"
+  | .raises e => s!"raise {showErr e} {showExc e.pyClass}"
+
+def showOutEff (c : Call) (r : Res × Option Meta) : String :=
+  match c.out with
+  | some (.grid _) =>
+    match r.2 with
+    | none => "out0 unchanged"
+    | some m =>
+      let same := match r.1 with | .grid g => g.metaId == m.id | _ => false
+      s!"out0 spin={match m.spin with | some s => toString s | none => "none"} extra={showList m.extra ","} meta={showMId m.id} sameasresult={if same then 1 else 0}"
+  | _ => "out0 na"
+
+def kv (pfx tok : String) : Option String :=
+  if tok.startsWith pfx then some (tok.drop pfx.length).toString else none
+
+def stepUfunc (toks : List String) : Option String :=
+  match toks with
+  | name :: meth :: kw :: out :: rest => do
+    let meth ← parseMeth meth
+    let kw ← kv "kw=" kw
+    let out ← (kv "out=" out).bind parseOut
+    let args ← (rest.filter (fun t => !t.startsWith "form=")).mapM parseArg
+    let c : Call := { uf := parseUF name, meth := meth, args := args, out := out, kwargs := kw == "1" }
+    match dispatch c with
+    | none => pure "nogrid"
+    | some r => pure (showRes r.1 ++ " | " ++ showOutEff c r)
+  | _ => none
+
+def stepMethod (toks : List String) : Option String :=
+  match toks with
+  | [name, a] => do
+    let m ← parseMethod name
+    match ← parseArg a with
+    | .grid g => pure (showRes (method m g none))
+    | _ => none
+  | [name, a, b] => do
+    let m ← parseMethod name
+    let b ← parseArg b
+    match ← parseArg a with
+    | .grid g => pure (showRes (method m g (some b)))
+    | _ => none
+  | _ => none
+
+def stepNew (toks : List String) : Option String :=
+  match toks with
+  | [sh, inm, pos, kwspin, kwextra] => do
+    let sh ← (kv "shape=" sh).bind parseShape
+    let inm ← kv "in=" inm
+    let inMeta : Option Meta ←
+      if inm == "none" then pure none else
+        match inm.splitOn ";" with
+        | [sp, ex] => do let sp ← parseOptInt sp; pure (some ⟨.pre 0, sp, parseExtra ex⟩)
+        | _ => none
+    let pos ← ((kv "pos=" pos).map (parseList · ',')).bind (·.mapM parseOptInt)
+    let kwspin ← kv "kwspin=" kwspin
+    let kwSpin : Option (Option Int) ← if kwspin == "absent" then pure none else (parseOptInt kwspin).map some
+    let kwextra ← kv "kwextra=" kwextra
+    pure (showRes (ofExcept (new (.fresh 0) inMeta sh pos kwSpin (parseExtra kwextra))))
+  | _ => none
+
+def parseRoute (s : String) : Option Route :=
+  match s.splitOn ":" with
+  | ["objCopy"] => some .objCopy | ["copyCopy"] => some .copyCopy | ["copyDeepcopy"] => some .copyDeepcopy
+  | ["npArraySubok"] => some .npArraySubok
+  | ["pickle", p] => p.toNat?.map .pickle
+  | _ => none
+
+def showHook : Hook → String
+  | .finalizeFrom => "finalize" | .finalizeNone => "finalize-none" | .reduce => "reduce" | .setstate => "setstate"
+
+def b01 (b : Bool) : String := if b then "1" else "0"
+
+/-- build a heap holding one Grid (dict 0; value objects 1..n; buffer n+1), copy it by `route`, report
+    what is preserved, what is shared, and whether mutations on one side are visible on the other -/
+def stepCopy (toks : List String) : Option String :=
+  match toks with
+  | [route, spin, extra] => do
+    let route ← parseRoute route
+    let spin ← parseOptInt spin
+    let keys := parseExtra extra
+    let n := keys.length
+    let entries := (List.range n).zip keys |>.map (fun (i, k) => (k, i + 1))
+    let h0 : Heap := { dict := fun i => if i = 0 then some ⟨spin, entries⟩ else none,
+                       val := fun i => if 1 ≤ i ∧ i ≤ n then some s!"v{i}" else none,
+                       buf := fun i => if i = n + 1 then some 42 else none,
+                       next := n + 2 }
+    let o : AObj := { cls := .Grid, buf := n + 1, md := some 0 }
+    let (c, h1) := copyVia route h0 o
+    let cmd := c.md.getD 0
+    let cd : DictC := (h1.dict cmd).getD ⟨none, []⟩
+    let valsShared := cd.extra.map (·.2) == entries.map (·.2)
+    let valsEqual := cd.extra.map (fun e => (e.1, h1.val e.2)) == entries.map (fun e => (e.1, h0.val e.2))
+    -- mutate the copy's dict, its first value object, its buffer: look at the original
+    let h2 := ((h1.setDict cmd ⟨some 77, ("new_key", 0) :: cd.extra⟩).setBuf c.buf 99)
+    let h2 := match cd.extra with | e :: _ => h2.setVal e.2 "mutated" | [] => h2
+    let origDictSame := h2.dict 0 == h0.dict 0
+    let origBufSame := h2.buf o.buf == h0.buf o.buf
+    let origValSame := match entries with | e :: _ => h2.val e.2 == h0.val e.2 | [] => true
+    -- mutate the original's dict / first value / buffer: look at the copy
+    let h3 := ((h1.setDict 0 ⟨some 55, [("other_key", 0)]⟩).setBuf o.buf 7)
+    let h3 := match entries with | e :: _ => h3.setVal e.2 "mutated" | [] => h3
+    let copyDictSame := h3.dict cmd == h1.dict cmd
+    let copyBufSame := h3.buf c.buf == h1.buf c.buf
+    let copyValSame := match cd.extra with | e :: _ => h3.val e.2 == h1.val e.2 | [] => true
+    pure (s!"hooks={showList (route.hooks.map showHook) ","} cls={if c.cls == .Grid then "Grid" else "ndarray"} " ++
+      s!"hasmd={b01 c.md.isSome} spin={match cd.spin with | some s => toString s | none => "none"} extra={showList (cd.extra.map (·.1)) ","} " ++
+      s!"valsequal={b01 valsEqual} mdsame={b01 (c.md == o.md)} valsshared={b01 (valsShared && n > 0)} bufsame={b01 (c.buf == o.buf)} databytes={b01 (h1.buf c.buf == h0.buf o.buf)} " ++
+      s!"orig_dict_unaffected={b01 origDictSame} orig_buf_unaffected={b01 origBufSame} orig_val_unaffected={b01 origValSame} " ++
+      s!"copy_dict_unaffected={b01 copyDictSame} copy_buf_unaffected={b01 copyBufSame} copy_val_unaffected={b01 copyValSame}")
+  | _ => none
+
+def step (toks : List String) : Option String :=
+  match toks with
+  | "ufunc" :: rest => stepUfunc rest
+  | "method" :: rest => stepMethod rest
+  | "new" :: rest => stepNew rest
+  | "copy" :: rest => stepCopy rest
+  | _ => none
 end GridOps
